@@ -978,6 +978,7 @@ def run_c16(ctx):
             ctx.violation("E2", f"model mesh_equal = {mo} but the statement-level oracle says {orc}", canon, found_input=False)
     # (2) structured representations vs the explicit representation of the same grids
     m = 500 if q else 15000
+    img_exprs, img_meta = [], []
     for _ in range(m):
         try:
             with quiet():
@@ -997,6 +998,12 @@ def run_c16(ctx):
         thr = max(max(rel, relb) * mxc, tolmax)
         ctx.case(canon, canon["changed"] is not None, sample={"case": canon, "impl": res})
         ctx.count(f"c16:structured:{canon['kind']}:{canon['changed'][0] if canon['changed'] else 'same'}")
+        if canon["kind"] == "image" and len(img_exprs) < (150 if q else 4000):
+            qv = lambda l: clist([lib.cqfrac(Fr(x)) for x in l], "Q")  # noqa: E731
+            ext = clist([cnat(e) for e in canon["extents"]], "nat")
+            mk = lambda o, s_: f"{{| im_extents := {ext}; im_origin := {qv(o)}; im_spacing := {qv(s_)}; im_basis := identity3 |}}"  # noqa: E731
+            img_exprs.append(f"image_equals {lib.cqfrac(rel)} {lib.cqfrac(ab)} {mk(canon['origin'], canon['spacing'])} {mk(canon['origin2'], canon['spacing2'])}")
+            img_meta.append((canon, res["ab"]))
         if res["ab"] != res["ba"]:
             ctx.violation("E4", f"structured equals is not symmetric: {res}", canon, impl=res)
         elif res["ab"] and worst > 4 * thr:
@@ -1005,6 +1012,11 @@ def run_c16(ctx):
         elif not res["ab"] and canon["changed"] is None:
             ctx.violation("E4", f"identical {canon['kind']} meshes compare unequal", canon, impl=res)
         ctx.traces_validated += 1
+    hdr = HEADER.replace("From FC Require Import Model.Scalar Model.Mesh.", "From FC Require Import Model.Scalar Model.Mesh Model.Structured Model.ImageEq.")
+    for (canon, implv), mo in zip(img_meta, ctx.coq_eval(hdr, img_exprs, name="c16img", shard=80)):
+        ctx.tie("ImageMesh.equals vs Model.ImageEq.image_equals")
+        if mo != implv:
+            ctx.violation("E2", f"ImageMesh.equals: model {mo} != implementation {implv}", canon, found_input=False)
     ctx.rule = ("(1) pairs of explicit meshes (optionally behind an identity PermutedMesh view) that are identical / differ by noise "
                 "far below tolerance / by one moved coordinate, one rewired corner, one removed cell, a dropped or added cell-type "
                 "block, a compatible type substitution, an extra point; both argument orders; (2) pairs of image / rectilinear / "
